@@ -475,7 +475,7 @@ pub fn run(cfg: &Cfg) -> Report {
 
     // ---------------- round trips ----------------
     let mut symbols: Vec<MSym> = vec![];
-    for s in gen::connected_sets_upto(2, cfg.tier.pick(4, 5)) {
+    for s in gen::connected_sets_upto(2, cfg.tier.pick(5, 6)) {
         gen::for_all_branchings(&s, &|_, _| vec![1, 2, 3, 4], &mut |x| symbols.push(x.clone()));
     }
     for s in gen::connected_sets_upto(3, cfg.tier.pick(3, 4)) {
@@ -500,7 +500,7 @@ pub fn run(cfg: &Cfg) -> Report {
 
     // large symbols: iterated double covers (multi-digit chamber numbers, long lines)
     let bases: Vec<MSym> = gen::connected_sets_upto(2, 4).into_iter().chain(gen::connected_sets_upto(3, 3)).collect();
-    let ctx = par_range(cfg, cfg.tier.pick(40, 400), |ctx, k| {
+    let ctx = par_range(cfg, cfg.tier.pick(120, 1200), |ctx, k| {
         let mut rng = Rng::stream(seed, 0x01_1000 + k as u64);
         let mut m = bases[k % bases.len()].clone();
         for _ in 0..(4 + rng.below(cfg.tier.pick(4, 6))) {
@@ -543,7 +543,7 @@ pub fn run(cfg: &Cfg) -> Report {
     report.absorb(ctx);
 
     // ---------------- totality ----------------
-    let nmut = cfg.tier.pick(150_000, 6_000_000);
+    let nmut = cfg.tier.pick(4_000_000, 40_000_000);
     let ctx = par_range(cfg, nmut, |ctx, k| {
         // one child per worker chunk would be ideal; a child is spawned lazily per case batch
         thread_local! { static CHILD: std::cell::RefCell<Option<ParseChild>> = std::cell::RefCell::new(None); }
